@@ -1,6 +1,7 @@
 package c03
 
 import (
+	"fmt"
 	"os"
 	"encoding/binary"
 	"encoding/json"
@@ -174,8 +175,8 @@ func TestC05(t *testing.T) {
 			case a := <-n.Arrivals:
 				h, _ := serve(a, 0)
 				n.Deliver(h.Resp, a.Src)
-			case <-n.cur:
-				n.cur = nil
+			case r := <-n.cur:
+				n.cur, n.Last = nil, r
 			case <-time.After(n.Timeout + 2*time.Second):
 				t.Fatal("client call does not end")
 			}
@@ -221,12 +222,22 @@ func TestC05(t *testing.T) {
 			n.T.ResetIL()
 		}
 		drain()
-		n.StartMeasure()
 		var a Arrival
-		select {
-		case a = <-n.Arrivals:
-		case <-time.After(3 * time.Second):
-			t.Fatal("client sent no request")
+		got := false
+		var errs []string
+		for try := 0; try < 4 && !got; try++ {
+			n.StartMeasure()
+			select {
+			case a = <-n.Arrivals:
+				got = true
+			case <-time.After(time.Second):
+				// the call ended (or hangs) without a request on the wire: note why and retry
+				n.Wait(n.Timeout + 2*time.Second)
+				errs = append(errs, fmt.Sprint(n.Last.Err))
+			}
+		}
+		if !got {
+			t.Fatalf("client sent no request in 4 calls (%s transport); call results: %v", kind, errs)
 		}
 		h, req := serve(a, ci)
 		reqIl := req.ReceiveTime != (ntp.Time64{})
